@@ -27,7 +27,7 @@ def gen_program(r, prop):
     big = kdt in ("i8", "u8") and r.random() < 0.35
     wide = big
     univ = key_universe(r, kdt, big)
-    n = r.randint(1, min(8, len(univ) - 2))
+    n = r.randint(1, min(r.choice([8, 8, 14]), len(univ) - 2))
     keys = r.sample(univ, n)
     absent = [k for k in univ if k not in keys]
     absent_in = list(absent)                       # absent and representable in the key dtype (count() batches)
@@ -110,6 +110,8 @@ def gen_program(r, prop):
                 st = ["set", t, q, ["array", vv]]
         elif c < 0.68:
             st = ["fill", t, r.randint(-3, 9)]
+        elif c < 0.70 and len(objs) < 5 and steps[0][4] != "set":
+            st = list(steps[0]) + [1]          # a second table built from the very same caller arrays as table 1
         elif c < 0.76 and len(objs) < 5:
             st = [r.choice(["zeros_like", "ones_like"]), t]
         elif c < 0.84 and len(objs) < 5:
@@ -119,6 +121,11 @@ def gen_program(r, prop):
         else:
             st = [r.choice(["items", "to_dict"]), t]
         if st[0] in ("add", "eq") and objs[st[2] - 1].kind == "set":
+            continue
+        if st[0] == "new":
+            res = exec_hash.step(objs, st, opts)
+            steps.append(st)
+            rec.append({"res": res, "obs": [exec_hash.shadow(x) for x in objs]})
             continue
         if kdt == "u8" and opts["query"] == "list" and st[0] in ("zeros_like", "ones_like", "add"):
             continue          # derived tables get a python-int modulus: the lossy float comparison path of KF-C11-1 is not exercised (see DESIGN 6)
